@@ -147,7 +147,6 @@ def py_mod(za, zb):
 
 class _Num:
     __slots__ = ("z",)
-    __array_priority__ = 1000
 
     def __hash__(self):
         return id(self)
@@ -159,6 +158,8 @@ class _Num:
         return _wrap(a + b, k)
 
     def __radd__(self, o):
+        if _is_arr(o):
+            return NotImplemented
         a, b, k = _pair(o, self)
         return _wrap(a + b, k)
 
@@ -169,6 +170,8 @@ class _Num:
         return _wrap(a - b, k)
 
     def __rsub__(self, o):
+        if _is_arr(o):
+            return NotImplemented
         a, b, k = _pair(o, self)
         return _wrap(a - b, k)
 
@@ -179,6 +182,8 @@ class _Num:
         return _wrap(_mul(a, b, k), k)
 
     def __rmul__(self, o):
+        if _is_arr(o):
+            return NotImplemented
         a, b, k = _pair(o, self)
         return _wrap(_mul(a, b, k), k)
 
@@ -207,6 +212,8 @@ class _Num:
         return r
 
     def __rtruediv__(self, o):
+        if _is_arr(o):
+            return NotImplemented
         a, b, k = _pair(o, self)
         if k == "int":
             a, b = z3.ToReal(a), z3.ToReal(b)
@@ -685,7 +692,8 @@ def fmt_token(value, spec):
 
 def _is_arr(o):
     from . import arrays
-    return isinstance(o, arrays.SArr)
+    import numpy as _np
+    return isinstance(o, (arrays.SArr, _np.ndarray))
 
 
 # ---------------------------------------------------------------------------
